@@ -234,6 +234,7 @@ func C14() int {
 		})
 	}
 	c14CrossCheck(s, c, jobs[0].items, jobs[0].f)
+	optionHistory(s, c, ritems)
 	reportBatchAnomalies(c)
 	c.Set("cells_wrapper_class_verdict", cells)
 	thin := 0
